@@ -156,10 +156,10 @@ def run_case(case):
     if case["id"] % 3 == 0:          # (each == on compound contracts solves LPs per pair of alternatives: a third of the cases carry this family)
         # --- compound contracts: interface lists field-wise, assumptions / guarantees by meaning (unions of intervals with
         #     integer end points; NestedTermList equality is semantic by design)
-        def comp(inv, outv, a, g):
+        def comp(inv, outv, a, g, gvar=None):
             def alts(v, ivs):
                 return [["-%s <= %d" % (v, -lo), "%s <= %d" % (v, hi)] for lo, hi in ivs]
-            return PolyhedralIoContractCompound.from_strings(alts(inv[0], a), alts(outv[0], g), inv, outv)
+            return PolyhedralIoContractCompound.from_strings(alts(inv[0], a), alts(gvar or outv[0], g), inv, outv)
 
         def intervals(n, disjoint):
             out, lo = [], rng.randint(-12, -6)
@@ -180,11 +180,14 @@ def run_case(case):
                  (["i"], ["o"], a0, g_late), (["i"], ["o"], a0, g_first), (["i"], ["o"], a_late, g0),
                  (["i"], ["o"], a0, g0[:-1]), (["i"], ["o"], a0, g0 + [[g0[-1][1] + 5, g0[-1][1] + 6]]),
                  (["i"], ["o", "p"], a0, g0), (["i", "j"], ["o"], a0, g0)]
+        # guarantees that speak about the INPUT and differ only outside the assumed region
+        amax = max(h for _, h in a0)
+        gin1, gin2 = [[-40, amax + 2]], [[-40, amax + 5]]
         cs, descr = [], []
-        for inv_, outv_, a_, g_ in specs:
+        for inv_, outv_, a_, g_, gv in [x + ("o",) for x in specs] + [(["i"], ["o"], a0, gin1, "i"), (["i"], ["o"], a0, gin2, "i"), (["i"], ["o"], a0, gin1, "i")]:
             try:
-                cs.append(comp(inv_, outv_, a_, g_))
-                descr.append({"inv": inv_, "outv": outv_, "a": a_, "g": g_})
+                cs.append(comp(inv_, outv_, a_, g_, gv))
+                descr.append({"inv": inv_, "outv": outv_, "a": a_, "g": g_, "gv": gv})
             except ValueError:
                 pass
         eqc = []
